@@ -284,7 +284,7 @@ def r3(ctx):
                 has = any(any(norm(a) == "DataMismatchWarning" for a in w.value.args + [k.value for k in w.value.keywords]) for w in warns)
                 if has != unseen:
                     warn_ok = False
-                d = o.env.get("data")
+                d = sym.value_of(o, "data")
                 if d is None or sym.pm_any([f"pandas.Series(pandas.Categorical(data, categories={L}))", f"pandas.Series(pandas.Categorical(data, {L}))"],
                                            sym.simplify(d, fx)) is None:
                     cat_ok = False
